@@ -354,6 +354,81 @@ pub fn check_history(c: &HCase) -> Verdict {
     }
 }
 
+// ---------------------------------------------------------------------------
+// a reader that outlives its target
+// ---------------------------------------------------------------------------
+
+#[derive(Debug, Clone, PartialEq, Eq, Hash, Serialize, Deserialize)]
+pub struct DeadCase {
+    pub style: Style,
+    pub len: u16,
+    pub to_vec: bool,
+    /// the target execs another program instead of being killed (its old address space goes away too)
+    pub reads_before: u8,
+}
+
+pub fn check_dead(c: &DeadCase) -> Verdict {
+    if matches!(c.style, Style::Ptrace | Style::CopyFromProcess) {
+        // word-by-word ptrace needs a stopped tracee; copy_from_process makes its reader per call
+        return Verdict::DontCare("strategy without a reader that can outlive the target".into());
+    }
+    let pid = crate::vcore::helpers::spawn_idle();
+    let reap = |pid: i32| unsafe {
+        libc::kill(pid, libc::SIGKILL);
+        let mut st = 0;
+        libc::waitpid(pid, &mut st, 0);
+    };
+    let maps = crate::props::fid::parse_maps(&std::fs::read(format!("/proc/{pid}/maps")).unwrap_or_default());
+    let Some(line) = maps.iter().find(|l| l.perms & 1 != 0 && !l.name.starts_with('[') && l.end - l.start >= 4096) else {
+        reap(pid);
+        return Verdict::Inconclusive("no readable mapping in the helper".into());
+    };
+    let addr = line.start as usize;
+    let len = 1 + (c.len as usize % 4096);
+    use std::os::unix::fs::FileExt;
+    let mut truth = vec![0u8; len];
+    if std::fs::File::open(format!("/proc/{pid}/mem")).and_then(|f| f.read_exact_at(&mut truth, addr as u64)).is_err() {
+        reap(pid);
+        return Verdict::Inconclusive("cannot read the helper's memory".into());
+    }
+    let mut rd = match c.style {
+        Style::VirtualMem => MemReader::for_virtual_mem(pid),
+        Style::File => match MemReader::for_file(pid) {
+            Ok(r) => r,
+            Err(e) => {
+                reap(pid);
+                return Verdict::Inconclusive(format!("for_file: {e}"));
+            }
+        },
+        _ => MemReader::new(pid),
+    };
+    let sig = |s: &str| format!("C17:{:?}:outlived-target:{s}", c.style);
+    for k in 0..(c.reads_before % 3) {
+        let mut dst = vec![0xA5u8; len];
+        match rd.read(addr, &mut dst) {
+            Ok(n) if n == len && dst == truth => {}
+            other => {
+                reap(pid);
+                return Verdict::viol(sig("live-read-wrong"), format!("read #{k} of {len} readable bytes of the live target: {other:?}"));
+            }
+        }
+    }
+    reap(pid);
+    // the target is gone: nothing can be read any more; a read must fail (or return nothing), never
+    // report bytes it did not read
+    let got: Result<Vec<u8>, String> = if c.to_vec {
+        rd.read_to_vec(addr, std::num::NonZeroUsize::new(len).unwrap()).map_err(|e| format!("{e:?}"))
+    } else {
+        let mut dst = vec![0xA5u8; len];
+        rd.read(addr, &mut dst).map(|n| dst[..n.min(len)].to_vec()).map_err(|e| format!("{e:?}"))
+    };
+    match got {
+        Err(_) => Verdict::pass_c(Some(fp_json(c)), vec![format!("{:?}", c.style), "error-after-death".into()]),
+        Ok(v) if v.is_empty() => Verdict::pass_c(Some(fp_json(c)), vec![format!("{:?}", c.style), "nothing-after-death".into()]),
+        Ok(v) => Verdict::viol(sig("fabricated-data"), format!("the target was killed and reaped, yet a read of {len} bytes through a reader opened while it lived reports {} bytes (first: {:02x?}; the reader's own buffer was filled with a5)", v.len(), &v[..v.len().min(8)])),
+    }
+}
+
 pub fn case_strategy() -> impl Strategy<Value = Case> {
     (
         prop_oneof![Just(Style::VirtualMem), Just(Style::File), Just(Style::Ptrace), Just(Style::Auto), Just(Style::CopyFromProcess)],
@@ -405,10 +480,22 @@ pub fn run(ctx: &mut LaneCtx) {
         },
         check_history,
     );
+    ctx.run_sub(
+        SubSpec {
+            name: "reader-outlives-target",
+            cases: (320, 8_000),
+            rule: "a reader (vectored read, /proc/pid/mem, auto-probe) is created on a live helper process, used for 0..2 reads of 1..4096 readable bytes (which must be exact), then the helper is killed and reaped and the same reader is used once more through read() or read_to_vec(); oracle = that read fails or returns nothing - it never reports bytes; every case non-trivial; distinct = hash of case",
+            strategy: (prop_oneof![Just(Style::VirtualMem), Just(Style::File), Just(Style::Auto)], any::<u16>(), any::<bool>(), 0u8..3).prop_map(|(style, len, to_vec, reads_before)| DeadCase { style, len, to_vec, reads_before }).boxed(),
+            max_shrink_iters: 64,
+            log_current: true,
+        },
+        check_dead,
+    );
 }
 
 pub fn replay(sub: &str, case: &Value) -> Verdict {
     match sub {
+        "reader-outlives-target" => replay_case::<DeadCase>(case, check_dead),
         "strategies" => replay_case::<Case>(case, check),
         "reader-history" => replay_case::<HCase>(case, check_history),
         _ => Verdict::Inconclusive(format!("unknown sub {sub}")),
